@@ -568,7 +568,12 @@ Section Sound.
       + pose proof (below_lower _ _ _ HA Hlt) as Hl. apply xlt_xle in Hl.
         rewrite Hl. rewrite Z.bit0_odd, Z.negb_odd, Hev. apply orb_true_r.
     - intros Hp. assert (Hx : x <> NaN) by (intros ->; apply Hp; apply pb_nth_root_nan; auto).
-      apply inb_widen. apply (bs_nth_root BS); auto using In_iv_inb.
+      assert (Hr : inb (p_bin OP_NTH_ROOT x (Fin (IZR n))) (b_nth_root B (iv A) n))
+        by (apply (bs_nth_root BS); auto using In_iv_inb).
+      match goal with |- context [if ?c then _ else _] =>
+        match c with negb _ && negb _ => destruct c end end.
+      + apply inb_widen. exact Hr.
+      + exact Hr.
   Qed.
 
 
